@@ -1,5 +1,6 @@
 import CalVerif.Lemmas.Xlsb
 import CalVerif.Lemmas.XlsbCross
+import CalVerif.Lemmas.XlsbBook
 import CalVerif.Props.C05
 /-! # C03 — XLSB: every cell record reads back at its position with its value
 
@@ -405,3 +406,177 @@ example :
   · simp [specCells, valueOf, styled, rkIntSpec, (by decide : berrKind 7 = some CellErrorType.div0)]
 
 end Xlsb
+
+/-! ## container: relationships part, the join in `read_workbook`, part lookup (`Model/XlsbBook.lean`)
+
+    From "the cells of the part" to "the cells of the sheet named n". The zip archive is a list of (name, bytes)
+    entries and the XML tokeniser delivers events (both trusted); everything between them and the part-level
+    models is modelled. -/
+
+namespace XlsbBook
+open Meta MetaEnc
+
+/-- `read_relationships` on a described part — relationship elements whose `Id` and `Target` attributes come in
+    either order among any other attributes, elements with other names, end tags, text — returns the declared
+    (id, target) pairs, a later one with the same id winning -/
+theorem rels_roundtrip (items : List RelItem) (h : ∀ i ∈ items, i.OK) :
+    Rels.readRels Rels.xlsbCfg (relEvents items) = .ok (declaredRels items []) :=
+  readRelsGo_items items [] h
+
+/-- the join compares bytes: looking the decoded BrtBundleSh relationship id up in the table the workbook model
+    uses (ids as texts) is `relationships.get(relid.as_bytes())` — equality of the UTF-8 bytes of the id with the
+    raw `Id` attribute bytes, for every spelling of the id (non-ASCII included) -/
+theorem rels_join_is_byte_comparison (cs : List Char) (rels : List (Rels.B × Rels.B))
+    (h : ∀ r ∈ rels, (∀ b ∈ r.1, b < 256) ∧ (Utf8.utf8Decode r.2).isSome) :
+    (relsTable rels).lookup (cs.map Char.toNat) =
+      (rels.lookup (Utf8.utf8Encode cs)).map (fun tg => String.ofList ((Utf8.utf8Decode tg).getD [])) :=
+  relsTable_lookup cs rels h
+
+/-- **the sheet named n is the part holding its cells.** A workbook description: a relationships part (any
+    elements, extra relationships, repeated ids), a `workbook.bin` whose sheet list declares sheets with any
+    relationship-id spelling and any `Target` under a known folder (C16's record encoder, any framing, any other
+    records, any defined-name section), the parts of the archive. When every declared sheet's id resolves (last
+    relationship with these id bytes) to its target and the archive holds the sheet's bytes under `xl/<Target>`,
+    and sheet names are distinct, then `Xlsb::new` succeeds, lists the sheets in order with these paths, and
+    `worksheet_range(name)` reads exactly the cells of that sheet's part, under the book's string table and date
+    system. -/
+theorem xlsb_sheet_resolution (pf : Bytes → List Text → List (Text × Text) → Res Text) (parts : Parts)
+    (relItems : List RelItem) (hrel : ∀ i ∈ relItems, i.OK)
+    (hbytes : ∀ r ∈ declaredRels relItems [], ∀ b ∈ r.1, b < 256)
+    (items : List WItem) (hitems : ∀ it ∈ items, it.OK (declaredRels relItems []))
+    (ew : Bool) (el : Nat) (nrecs : List NRec)
+    (hok : namesOk pf ((declsOf items).map fun d => d.sheet.decoded (relsTable (declaredRels relItems []))) ([], []) nrecs)
+    (t : Nat) (ht : isAfterNames t = true) (tw : Bool) (tl : Nat) (rest : Bytes)
+    (hwb : partOf parts wbPath = some (encodeWorkbookBin (items.map WItem.toRec) ew el
+      (nrecs.flatMap NRec.bytes ++ (Xlsb.frame t [] tw tl ++ rest))))
+    (hparts : ∀ d ∈ declsOf items, partOf parts d.path = some d.cells)
+    (hdist : (declsOf items).Pairwise (fun a b => a.name ≠ b.name))
+    (strs : List (List Nat)) (hs : stringsOf parts = .ok strs) (formats : List Nat) :
+    ∃ bk, openBook pf parts (some (relEvents relItems)) = .ok bk ∧ bk.strings = strs ∧
+      bk.wb.is1904 = flagW (items.map WItem.toRec) ∧
+      bk.wb.sheets.map (·.name) = (declsOf items).map SheetDecl.name ∧ bk.paths = (declsOf items).map SheetDecl.path ∧
+      ∀ d ∈ declsOf items, sheetPart bk parts d.name = .ok d.cells ∧
+        worksheetRange formats bk parts d.name
+          = Xlsb.decodeSheet ⟨formats, strs, flagW (items.map WItem.toRec)⟩ d.cells := by
+  have hr : ∀ r ∈ declaredRels relItems [], (∀ b ∈ r.1, b < 256) ∧ (Utf8.utf8Decode r.2).isSome :=
+    fun r hm => ⟨hbytes r hm, declaredRels_targets relItems [] hrel (fun _ h => nomatch h) r hm⟩
+  have hall : ∀ r ∈ items.map WItem.toRec, r.ok (relsTable (declaredRels relItems [])) := by
+    intro r hm
+    obtain ⟨it, hit, rfl⟩ := List.mem_map.mp hm
+    exact toRec_ok _ hr it (hitems it hit)
+  have hres : ∀ d ∈ declsOf items, d.resolves (declaredRels relItems []) := by
+    intro d hd
+    have : ∀ (l : List WItem), (∀ it ∈ l, it.OK (declaredRels relItems [])) → ∀ d ∈ declsOf l, d.resolves (declaredRels relItems []) := by
+      intro l
+      induction l with
+      | nil => intro _ d hd; cases hd
+      | cons x l ih =>
+        intro hl d hd
+        cases x with
+        | sheet d' w l' =>
+          simp only [declsOf] at hd
+          rcases List.mem_cons.mp hd with rfl | hd'
+          · exact (hl _ (List.mem_cons_self ..)).2.2.2.2.1
+          · exact ih (fun y hy => hl y (List.mem_cons_of_mem _ hy)) d hd'
+        | wbprop f w l' => exact ih (fun y hy => hl y (List.mem_cons_of_mem _ hy)) d (by simpa [declsOf] using hd)
+        | other i p w l' => exact ih (fun y hy => hl y (List.mem_cons_of_mem _ hy)) d (by simpa [declsOf] using hd)
+    exact this items hitems d hd
+  have hdw := declaredW_recs items
+  have hwork := readWorkbookXlsb_encoded pf (relsTable (declaredRels relItems [])) (items.map WItem.toRec) hall ew el nrecs
+    (by rw [hdw, List.map_map]; exact hok) t ht tw tl rest
+  refine ⟨⟨⟨(declaredW (items.map WItem.toRec)).map (fun s => (s.decoded (relsTable (declaredRels relItems []))).1),
+      (nrecs.foldl (applyN pf ((declaredW (items.map WItem.toRec)).map (XlsbSheet.decoded (relsTable (declaredRels relItems []))))) ([], [])).2,
+      flagW (items.map WItem.toRec)⟩,
+    (declaredW (items.map WItem.toRec)).map (fun s => (s.decoded (relsTable (declaredRels relItems []))).2), strs⟩, ?_, rfl, rfl, ?_, ?_, ?_⟩
+  · unfold openBook
+    rw [hs, relsOf_items relItems hrel]
+    simp only [hwb, hwork]
+  · simp only [hdw, List.map_map]
+    apply List.map_congr_left
+    intro d hd
+    exact (decl_decoded _ hr d (hres d hd)).2
+  · simp only [hdw, List.map_map]
+    apply List.map_congr_left
+    intro d hd
+    exact (decl_decoded _ hr d (hres d hd)).1
+  · intro d hd
+    have hfind := find_decl _ hr (declsOf items) hres hdist d hd
+    have hsp : ∀ (nm : List (Text × Text)), sheetPart ⟨⟨(declaredW (items.map WItem.toRec)).map (fun s => (s.decoded (relsTable (declaredRels relItems []))).1), nm, flagW (items.map WItem.toRec)⟩,
+        (declaredW (items.map WItem.toRec)).map (fun s => (s.decoded (relsTable (declaredRels relItems []))).2), strs⟩ parts d.name = .ok d.cells := by
+      intro nm
+      unfold sheetPart
+      simp only [hdw, List.map_map]
+      have : (List.map ((fun s => (XlsbSheet.decoded (relsTable (declaredRels relItems [])) s).fst) ∘ SheetDecl.sheet) (declsOf items)).zip
+          (List.map ((fun s => (XlsbSheet.decoded (relsTable (declaredRels relItems [])) s).snd) ∘ SheetDecl.sheet) (declsOf items))
+          = ((declsOf items).map fun x => (x.sheet.decoded (relsTable (declaredRels relItems []))).1).zip
+            ((declsOf items).map fun x => (x.sheet.decoded (relsTable (declaredRels relItems []))).2) := rfl
+      rw [this, hfind]
+      simp only [hparts d hd]
+    refine ⟨hsp _, ?_⟩
+    unfold worksheetRange
+    rw [hsp]
+
+
+/-- `read_relationships` never panics and never hangs: on arbitrary events, in both configurations -/
+theorem rels_total (cfg : Rels.Cfg) (evs : List Rels.Ev) :
+    (∃ v, Rels.readRels cfg evs = .ok v) ∨ (∃ e, Rels.readRels cfg evs = .err e) :=
+  readRelsGo_cases cfg evs []
+
+/-- `read_workbook` (both loops, C16's model) on arbitrary bytes and an arbitrary relationship table: `Ok` or `Err`,
+    given a formula decoder that is total -/
+theorem read_workbook_total (pf : Bytes → List Text → List (Text × Text) → Res Text) (hpf : PfTotal pf)
+    (rels : List (Text × String)) (bs : Bytes) :
+    (∃ v, readWorkbookXlsb pf rels bs = .ok v) ∨ (∃ e, readWorkbookXlsb pf rels bs = .err e) :=
+  readWorkbookXlsb_cases pf hpf rels bs
+
+/-- `Xlsb::new` (without the style table) on an arbitrary archive and arbitrary relationship events: `Ok` or `Err` -/
+theorem open_total (pf : Bytes → List Text → List (Text × Text) → Res Text) (hpf : PfTotal pf) (parts : Parts)
+    (relsEvents : Option (List Rels.Ev)) :
+    (∃ bk, openBook pf parts relsEvents = .ok bk) ∨ (∃ e, openBook pf parts relsEvents = .err e) :=
+  openBook_cases pf hpf parts relsEvents
+
+/-- resolving a sheet name to its part: `Ok`, `WorksheetNotFound` or `FileNotFound` -/
+theorem sheet_part_total (bk : Book) (parts : Parts) (name : Text) :
+    (∃ b, sheetPart bk parts name = .ok b) ∨ (∃ e, sheetPart bk parts name = .err e) :=
+  sheetPart_cases bk parts name
+
+/-- non-vacuity of `xlsb_sheet_resolution`: two sheets, a non-ASCII relationship id ("rIdé"), the relationships in
+    the other order with an extra relationship, a repeated id (the later one wins) and `Target` before `Id` -/
+example :
+    let d1 : SheetDecl := ⟨.visible, 1, [65], "rIdé".toList, "worksheets/sheet1.bin".toList, [1, 2, 3]⟩
+    let d2 : SheetDecl := ⟨.hidden, 2, [66], "rId2".toList, "chartsheets/sheet2.bin".toList, [4, 5]⟩
+    let relItems : List RelItem :=
+      [.elem (Rels.nmRelationships) [],
+       .rel ⟨Utf8.utf8Encode "rId2".toList, Utf8.utf8Encode "worksheets/old.bin".toList, [], [], [], true⟩,
+       .rel ⟨Utf8.utf8Encode "rId2".toList, Utf8.utf8Encode "chartsheets/sheet2.bin".toList, [([84, 121, 112, 101], [120])], [], [], false⟩,
+       .close Rels.nmRelationship,
+       .rel ⟨Utf8.utf8Encode "rId9".toList, Utf8.utf8Encode "styles.bin".toList, [], [], [], true⟩,
+       .rel ⟨Utf8.utf8Encode "rIdé".toList, Utf8.utf8Encode "worksheets/sheet1.bin".toList, [], [([84, 121, 112, 101], [120])], [], true⟩,
+       .other]
+    let items : List WItem := [.other 0x83 [] false 0, .sheet d1 false 0, .wbprop 1 true 3, .sheet d2 true 4]
+    (∀ i ∈ relItems, i.OK) ∧ (∀ it ∈ items, it.OK (declaredRels relItems [])) ∧
+    (declsOf items).Pairwise (fun a b => a.name ≠ b.name) := by
+  refine ⟨?_, ?_, ?_⟩
+  · intro i hi
+    simp only [List.mem_cons, List.not_mem_nil, or_false] at hi
+    rcases hi with rfl | rfl | rfl | rfl | rfl | rfl | rfl
+    · show Rels.nmRelationships ≠ Rels.nmRelationship; decide
+    · exact ⟨fun _ h => (nomatch h), fun _ h => (nomatch h), fun _ h => (nomatch h), by decide⟩
+    · refine ⟨?_, fun _ h => (nomatch h), fun _ h => (nomatch h), by decide⟩
+      intro a ha; simp only [List.mem_cons, List.not_mem_nil, or_false] at ha; subst ha; exact ⟨by decide, by decide⟩
+    · trivial
+    · exact ⟨fun _ h => (nomatch h), fun _ h => (nomatch h), fun _ h => (nomatch h), by decide⟩
+    · refine ⟨fun _ h => (nomatch h), ?_, fun _ h => (nomatch h), by decide⟩
+      intro a ha; simp only [List.mem_cons, List.not_mem_nil, or_false] at ha; subst ha; exact ⟨by decide, by decide⟩
+    · trivial
+  · intro it hit
+    simp only [List.mem_cons, List.not_mem_nil, or_false] at hit
+    rcases hit with rfl | rfl | rfl | rfl
+    · exact ⟨by decide, by decide, by decide, by decide, by decide⟩
+    · exact ⟨by decide, by decide, by decide, by decide, by (unfold SheetDecl.resolves; decide), ⟨.workSheet, by decide⟩, by decide⟩
+    · show (1 : Nat) < 4294967296; decide
+    · exact ⟨by decide, by decide, by decide, by decide, by (unfold SheetDecl.resolves; decide), ⟨.chartSheet, by decide⟩, by decide⟩
+  · simp [declsOf, SheetDecl.name]
+    decide
+
+end XlsbBook
